@@ -266,7 +266,7 @@ def many_columns_case(rng, kind=None):
 
 def literal_is_small(c):
     """send a case to Coq only while its literal stays within a few hundred numbers"""
-    return c["N"] * (2 * len(c["exts"]) + (c["K"] or 1) * (c["fact"] is not None) + 1) <= 450
+    return c["N"] * (2 * len(c["exts"]) + (c["K"] or 1) * (c["fact"] is not None) + 1) <= 300
 
 
 # --------------------------------------------------------------------------
@@ -840,6 +840,15 @@ class Suite:
 
     def count(self, key):
         self.dist[key] = self.dist.get(key, 0) + 1
+
+    def spread(self, shard_size):
+        """Deal the literals round-robin over the shards (the streams with large literals come last; contiguous
+        shards would put all of them into one or two coqc processes)."""
+        n = len(self.lits)
+        nsh = max(1, -(-n // shard_size))
+        order = [i for r in range(nsh) for i in range(r, n, nsh)]
+        self.lits = [self.lits[i] for i in order]
+        self.metas = [self.metas[i] for i in order]
 
     def fail(self, c, fmt, which, bad, extra=None):
         sig = classify(c, which, bad)
